@@ -320,6 +320,11 @@ def jobs(ctx, tier):
                                                                            ('root.Assignment.0.Assignment.value.ExpressionList.0.ExpressionList.rest', 0),
                                                                            ('root.Assignment.0.Assignment.operator?', 'None'), ('root.Assignment.0.Assignment.dest', 'Identifier')), True),
                   witness=['stmt-done', 'reported'], str_mode='bounded', weight=10, fuel=6_000_000))
+    # a binary right-hand side whose operand list has two elements (`10 minus 2, 3`): the reported value is the left fold
+    base = 'root.Assignment.0.Assignment.value.ExpressionList.0.ExpressionList.first'
+    js.append(Job('Assignment/rhs=BinaryExpression/operand-list-of-2', h_stmt, (mir, 'Assignment', ((base, 'BinaryExpression'), (base + '.BinaryExpression.0.BinaryExpression.rhs.ExpressionList.rest', 1),
+                                                                                                   ('root.Assignment.0.Assignment.value.ExpressionList.0.ExpressionList.rest', 0), ('root.Assignment.0.Assignment.operator?', 'None'),
+                                                                                                   ('root.Assignment.0.Assignment.dest', 'Identifier'))), witness=['stmt-done'], str_mode='bounded', weight=12, fuel=6_000_000))
     js.append(Job('PoeticAssignment/other-forms', h_stmt, (mir, 'PoeticAssignment', (('root.PoeticAssignment.0.Number.0.PoeticNumberAssignment.rhs', 'PoeticNumberLiteral'),)), witness=['stmt-done'], str_mode='bounded', weight=2))
     js.append(Job('ArrayPush/no-value', h_stmt, (mir, 'ArrayPush', (('root.ArrayPush.0.ArrayPush.value?', 'None'),)), witness=['stmt-done'], str_mode='bounded'))
     js.append(Job('ArrayPush/poetic-literal', h_stmt, (mir, 'ArrayPush', (('root.ArrayPush.0.ArrayPush.value?', 'Some'), ('root.ArrayPush.0.ArrayPush.value', 'PoeticNumberLiteral'))), witness=['stmt-done'], str_mode='bounded'))
